@@ -258,7 +258,28 @@ func cmdWorker(args []string) int {
 			res.Plan = nil
 		}
 		res.ProcFrom, res.ProcStride = *from, *stride
+		if os.Getenv("VERIF_LEAKDBG") != "" && n%200 == 0 {
+			var ms runtime.MemStats
+			runtime.GC()
+			runtime.ReadMemStats(&ms)
+			fmt.Fprintf(os.Stderr, "LEAKDBG runs=%d goroutines=%d heap=%dMB sys=%dMB\n", n, runtime.NumGoroutine(), ms.HeapAlloc>>20, ms.Sys>>20)
+			if n%1000 == 0 {
+				f, _ := os.Create(fmt.Sprintf("/tmp/leak-%d.goroutines", n))
+				_ = pprof.Lookup("goroutine").WriteTo(f, 1)
+				f.Close()
+				f, _ = os.Create(fmt.Sprintf("/tmp/leak-%d.heap", n))
+				_ = pprof.Lookup("heap").WriteTo(f, 0)
+				f.Close()
+			}
+		}
 		_ = enc.Encode(&workerLine{Type: "run", Run: run, Result: res})
+		// every simulated server that is abandoned (end of a run, crash) leaves its coroutines'
+		// goroutines parked for good, and so does every coroutine the scheduler refused; a process
+		// that has collected too many hands over to a fresh one (the orchestrator continues after this run)
+		if n%50 == 0 && *maxRuns == 0 && (runtime.NumGoroutine() > 15000 || n >= 4000) {
+			out.Flush()
+			os.Exit(3)
+		}
 	}
 	_ = enc.Encode(&workerLine{Type: "done"})
 	return 0
